@@ -20,6 +20,11 @@ class IntV(Int):
     label = "int"
 
 
+def timeseries_ret():
+    return Obj("TimeSeries", file="sigpyproc/timeseries.py",
+               fields={"_data": Arr("real", "f4"), "_header": header_obj(None, HDR_EXTRA)})
+
+
 def consumer_self():
     return Obj("FilReader", file="sigpyproc/readers.py", fields={"_header": header_obj(None, HDR_EXTRA)})
 
@@ -50,7 +55,7 @@ def register(reg):
     # ---- collapse
     done = "(N if _k0 == bK else boff(_k0))"
     row = "tim_ar[t] == rsum(XS(), nchans, start + t, nchans)"
-    c = Contract(B + "Filterbank.collapse", props=["C06"], params=params(), lets=LETS, requires=RANGE,
+    c = Contract(no_unfold=True, key=B + "Filterbank.collapse", props=["C06"], params=params(), lets=LETS, requires=RANGE,
                  ghost_args={"extract_tim": {"B": "start + boff(_k0)"}}, **COMMON)
     c.loops["0:nsamps_r_ii_data"] = LoopSpec([
         ("done", f"forall(t, 0, {done}, {row})"),
@@ -62,7 +67,8 @@ def register(reg):
 
     # ---- bandpass
     done = "(N if _k0 == bK else boff(_k0))"
-    c = Contract(B + "Filterbank.bandpass", props=["C06", "C07"], params=params(), lets=LETS, requires=RANGE,
+    c = Contract(no_unfold=True, key=B + "Filterbank.bandpass", props=["C06", "C07"], params=params(), lets=LETS, requires=RANGE,
+                 ret=timeseries_ret(),
                  ghost_args={"extract_bpass": {"B": "start + boff(_k0)"}}, **COMMON)
     c.loops["0:nsamps_r___data"] = LoopSpec([
         ("colsums", f"len(bpass_ar) == nchans and forall(c, 0, nchans, bpass_ar[c] == colsum(XS(), nchans, c, start, {done}))"),
@@ -74,7 +80,7 @@ def register(reg):
 
     # ---- read_chan
     done = "(N if _k0 == bK else boff(_k0))"
-    c = Contract(B + "Filterbank.read_chan", props=["C06"], params=params(ichan=Int()), lets=LETS, requires=RANGE,
+    c = Contract(no_unfold=True, key=B + "Filterbank.read_chan", props=["C06"], params=params(ichan=Int()), lets=LETS, requires=RANGE,
                  raises=[Raises("ValueError", when="ichan >= self._header.nchans or ichan < 0")], **COMMON)
     c.loops["0:nsamps_r_ii_data"] = LoopSpec([
         ("done", f"len(tim_ar) == N and forall(t, 0, {done}, tim_ar[t] == XS((start + t) * nchans + ichan))")])
@@ -85,7 +91,7 @@ def register(reg):
     # ---- dedisperse
     done = "(N - max_delay if _k0 == bK else boff(_k0))"
     cell = "tim_ar[t] == dsum(XS(), nchans, start + t, DLY(), nchans)"
-    c = Contract(B + "Filterbank.dedisperse", props=["C06", "C09"], params=params(dm=Real()), lets=LETS,
+    c = Contract(no_unfold=True, key=B + "Filterbank.dedisperse", props=["C06", "C09"], params=params(dm=Real()), lets=LETS,
                  requires=RANGE, ghost_args={"dedisperse": {"B": "start + boff(_k0)"}}, **COMMON)
     # domain of the property: 0 <= maxdelay < nsamps
     c.loops["0:nsamps_r_ii_data"] = LoopSpec([
